@@ -379,9 +379,128 @@ fn near_queries(b: &zoo::Built, seed: u64, info: &mut String) {
     );
 }
 
+/// Number of live external-scanner instances of a zoo scanner that exports `tree_sitter_<name>_scanner_live`
+/// (zoo/c08scan does): create/destroy pairing, which the library's allocator cannot see.
+fn scanner_live(b: &zoo::Built) -> Option<i32> {
+    unsafe {
+        let lib = libloading::Library::new(b.dir.join("lang.so")).ok()?;
+        let sym = format!("tree_sitter_{}_scanner_live", b.name);
+        let v = {
+            let f: libloading::Symbol<unsafe extern "C" fn() -> i32> = lib.get(sym.as_bytes()).ok()?;
+            f()
+        };
+        std::mem::forget(lib);
+        Some(v)
+    }
+}
+
+/// Every parser-level transition after every kind of pending state: the parse finished, or was
+/// cancelled by the progress callback at its first / an early / a middle / a late / its last callback;
+/// then set_language (same, other), reset, set_included_ranges, set_logger, a parse of another text,
+/// a resumed parse, or nothing — and the parser is dropped.  After each combination the allocator must
+/// balance and (for scanners that count) no scanner instance may be left.
+fn transitions(b: &zoo::Built, lang_id: &str, other: &Language, seed: u64, info: &mut String) {
+    let mut rng = Rng::new(seed);
+    let gg = gen::GrammarGen::new(&b.grammar_json, zoo::read_zoo_file(lang_id, "samples.json").as_deref());
+    let mut text = Vec::new();
+    for _ in 0..8 {
+        let toks = gg.sentence(&mut rng, 200);
+        text.extend_from_slice(&gg.render(&toks, &mut rng).0);
+        text.push(b'\n');
+    }
+    if text.len() < 64 {
+        text.extend_from_slice(b"#a word (#b x) ");
+    }
+    // long enough for many progress callbacks (one per 100 parser operations)
+    let unit = text.clone();
+    while text.len() < 40_000 {
+        text.extend_from_slice(&unit);
+    }
+    text.truncate(40_000);
+    let other_text = b"1 + 2 * (3 - 4)".to_vec();
+    // how many progress callbacks does a full parse make?
+    let total = {
+        let mut p = Parser::new();
+        p.set_language(&b.language).unwrap();
+        let mut n = 0u32;
+        let mut cb = |_: &tree_sitter::ParseState| {
+            n += 1;
+            std::ops::ControlFlow::Continue(())
+        };
+        let opts = tree_sitter::ParseOptions::new().progress_callback(&mut cb);
+        let len = text.len();
+        let _ = p.parse_with_options(&mut |i, _| if i < len { &text[i..] } else { &[] }, None, Some(opts));
+        n
+    };
+    let mut pendings: Vec<Option<u32>> = vec![None, Some(0), Some(1), Some(total / 4), Some(total / 2), Some(total.saturating_sub(2)), Some(total.saturating_sub(1))];
+    for _ in 0..3 {
+        pendings.push(Some(rng.below(total.max(1) as usize) as u32));
+    }
+    let names = ["none", "set_same", "set_other", "reset", "ranges", "logger", "parse_other", "resume", "set_same_then_parse"];
+    let base_live = scanner_live(b);
+    let mut first_leak: Option<String> = None;
+    let mut combos = 0;
+    for pend in &pendings {
+        for (ti, tname) in names.iter().enumerate() {
+            let before = LIVE.load(Ordering::SeqCst);
+            {
+                let mut p = Parser::new();
+                p.set_language(&b.language).unwrap();
+                let t1 = guarded_parse(&mut p, &text, None, *pend);
+                let mut t2 = None;
+                match ti {
+                    1 => {
+                        let _ = p.set_language(&b.language);
+                    }
+                    2 => {
+                        let _ = p.set_language(other);
+                        t2 = guarded_parse(&mut p, &other_text, None, None);
+                    }
+                    3 => p.reset(),
+                    4 => {
+                        let r = [Range { start_byte: 0, end_byte: text.len() / 2, start_point: Point { row: 0, column: 0 }, end_point: Point { row: 9999, column: 0 } }];
+                        let _ = p.set_included_ranges(&r);
+                    }
+                    5 => {
+                        p.set_logger(Some(Box::new(|_, _| {})));
+                        p.set_logger(None);
+                    }
+                    6 => t2 = guarded_parse(&mut p, b"#a word (#b)", None, None),
+                    7 => t2 = guarded_parse(&mut p, &text, None, None),
+                    8 => {
+                        let _ = p.set_language(&b.language);
+                        t2 = guarded_parse(&mut p, &text, None, Some(3));
+                    }
+                    _ => {}
+                }
+                drop(t1);
+                drop(t2);
+                drop(p);
+            }
+            combos += 1;
+            let delta = LIVE.load(Ordering::SeqCst) - before;
+            let sl = scanner_live(b);
+            let sdelta = match (sl, base_live) {
+                (Some(a), Some(b0)) => a - b0,
+                _ => 0,
+            };
+            if (delta != 0 || sdelta != 0) && first_leak.is_none() {
+                first_leak = Some(format!("{delta}:scanner_instances_left:{sdelta}:pending:{}:then:{tname}", pend.map(|k| format!("cancel@{k}/{total}")).unwrap_or_else(|| "finished".into())));
+            }
+        }
+    }
+    *info = format!(" combos={combos} callbacks={total} scanner_counter={}{}", base_live.is_some() as u8, first_leak.map(|l| format!(" leak={l}")).unwrap_or_default());
+}
+
 fn history(kind: &str, lang_id: &str, b: &zoo::Built, seed: u64, thorough: bool, dump: &mut Option<String>, info: &mut String) {
     if kind == "nearquery" {
         near_queries(b, seed, info);
+        return;
+    }
+    if kind == "transitions" {
+        if let Ok(o) = zoo::load("arith") {
+            transitions(b, lang_id, &o.language, seed, info);
+        }
         return;
     }
     let mut rng = Rng::new(seed);
@@ -854,6 +973,11 @@ fn main() {
                 specs.push(format!("hist {kind} c07glr {}", rng.next() % 1_000_000_007));
             }
         }
+        for lang in ["c08scan", "c08scan", "arith", "c07glr", "stmt", "fx_external_tokens"] {
+            for _ in 0..(if thorough { 10 } else { 2 }) {
+                specs.push(format!("hist transitions {lang} {}", rng.next() % 1_000_000_007));
+            }
+        }
         for _ in 0..(if thorough { 60 } else { 12 }) {
             specs.push(format!("arr {} {}", rng.next() % 1_000_000_007, rng.range(20, 120)));
         }
@@ -885,7 +1009,14 @@ fn main() {
                 let a0 = ALLOCS.load(Ordering::Relaxed);
                 let mut dump = None;
                 let mut info = String::new();
+                let sl0 = scanner_live(b);
                 history(kind, lang, b, seed.parse().unwrap(), thorough, &mut dump, &mut info);
+                // create/destroy pairing of the external scanner over the whole history (any kind)
+                if let (Some(a0), Some(a1)) = (sl0, scanner_live(b)) {
+                    if a1 != a0 && !info.contains(" leak=") {
+                        info.push_str(&format!(" leak=0:scanner_instances_left:{}:history", a1 - a0));
+                    }
+                }
                 let delta = LIVE.load(Ordering::SeqCst) - before;
                 let hasext = b.grammar_json.contains("\"externals\"") && !b.grammar_json.contains("\"externals\": []") && !b.grammar_json.contains("\"externals\":[]");
                 writeln!(out, "hist {cid} kind={kind} lang={lang} allocs={} live_delta={delta}{info}", ALLOCS.load(Ordering::Relaxed) - a0).unwrap();
